@@ -351,6 +351,8 @@ class StmtMixin:
         # 3. assume the invariant in the arbitrary iteration
         for name, text in spec.invariants.items():
             self.assume(self.inv_clause(text, ctx))
+        for name, text in spec.unfold.items():
+            self.assume(self.inv_clause(text, ctx))
         ctx.iter_state = self.st.copy()
         dec0 = None
         if spec.decreases:
